@@ -52,6 +52,18 @@ def judge_policy(path, keys, hdrs):
     c = out["c"]
     with open(path, errors="replace") as fh:
         for line in fh:
+            if line.startswith('["KI"'):
+                # a key item found flagged after it was used: it must carry a message like any other flagged item
+                try:
+                    ev = json.loads(line)
+                except Exception:
+                    continue
+                c["key_items_flagged_after_use"] = c.get("key_items_flagged_after_use", 0) + 1
+                if not ev[7]:
+                    out["viol"].append(("item-flagged-without-message-after-%s:%s" % ("verify" if ev[6] == "v" else "generate", keys.get(ev[3], ("?",))[0].split(":")[0]),
+                                        "a keyring item is flagged as bad after use but its message is empty",
+                                        dict(idx=ev[1], provider=["openssl", "gnutls"][ev[2]], key=keys.get(ev[3], ("?",))[0], key_alg_index=ev[4], public_form=bool(ev[5]))))
+                continue
             if not (line.startswith('["V"') or line.startswith('["G"')):
                 continue
             try:
@@ -138,7 +150,7 @@ def run(tier, seed, replay):
                                   dict(token=tok[:400].decode("latin-1"), token_len=len(tok), classifier=[verdict, why]))
     # 2. policy matrix
     b = vf.driver("d_policy", "asan")
-    spec = ("prov=0,1;route=0,1,2,3;cfg=0,1,4,7,10,14,15;keys=none,oct:64,oct:16,rsa:2048,rsa:1024,ec:P-256,okp:Ed25519;kalg=-1,0,1,4,7,14,15;pub=0,1;"
+    spec = ("prov=0,1;route=0,1,2,3;cfg=0,1,4,7,10,14,15;keys=none,oct:64,oct:16,rsa:2048,rsa:1024,ec:P-256,ec:secp256k1,okp:Ed25519;kalg=-1,0,1,4,7,14,15;pub=0,1;"
             "hdr=0..49;sig=0,1,2,3,6,7,9;op=v,g")
     if tier == "thorough":
         spec = c02.spec("thorough")
